@@ -14,6 +14,7 @@ type dispatchReport struct {
 	Scenarios int                  `json:"scenarios"`
 	Returned  int                  `json:"returned"`
 	Cancelled int                  `json:"cancelled"`
+	Undecided int                  `json:"oracle_undecided"` // assignment search cut off: execution not judged by the C01/C02 oracles
 	Failures  []failureRec         `json:"failures"`
 	FailureN  map[string]int       `json:"failure_count"`
 	Points    map[string]int       `json:"points"`
@@ -68,6 +69,9 @@ func init() {
 			rep.Scenarios++
 			if res.Returned {
 				rep.Returned++
+			}
+			if res.Inconclusive {
+				rep.Undecided++
 			}
 			if res.Cancelled {
 				rep.Cancelled++
